@@ -49,7 +49,20 @@ def run(pid, lean_module, theorems, scenarios, rule, tier, seed, level="proof", 
     known = [k for k in core.load_known() if k["property"] == pid]
     known_classes = {k["class"] for k in known if k["status"] == "known"}
 
+    # scenarios that exhaust their delivery budget are the expensive ones (an exchange that never ends runs to the last delivery, in
+    # lockstep with the model): after `ENDLESS_CAP` of them the tree is known to be broken in that way and the rest are skipped —
+    # on a tree where exchanges end this never triggers
+    endless = []
+    ENDLESS_CAP = 6
+    def is_endless(f): return any(t in f.cls for t in ("does-not-terminate", "no-quiescence", "self-sustaining"))
     def one(ix_sc, salt=0):
+        ix, (name, fn) = ix_sc
+        if len(endless) >= ENDLESS_CAP:
+            return dict(name=name, fails=[], dis=None, script=[], ops=0, delivered=0, hash=f"skipped-{ix}-{salt}", skipped=True)
+        r = one_(ix_sc, salt)
+        if any(is_endless(f) for f in r.get("fails", [])): endless.append(name)
+        return r
+    def one_(ix_sc, salt=0):
         ix, (name, fn) = ix_sc
         net = cluster.Net(f"{pid}_{ix}_{salt}", with_model=not getattr(fn, "impl_only", False))
         rng = core.XorShift(seed * 7919 + ix + 1 + salt * 1000003)
@@ -75,9 +88,12 @@ def run(pid, lean_module, theorems, scenarios, rule, tier, seed, level="proof", 
     else:
         obligations.append(("model driver", False, "nunmodel does not build"))
     failures = []; disagreements = []; hashes = set()
+    skipped = [r["name"] for r in results if r.get("skipped")]
+    if skipped: notes.append(f"{len(skipped)} scenario(s) skipped after {ENDLESS_CAP} scenarios exhausted their delivery budget: {skipped[:5]}…")
     for r in results:
         if "error" in r:
             obligations.append((f"scenario {r['name']}", False, r["error"])); continue
+        if r.get("skipped"): continue
         hashes.add(r["hash"])
         if r["dis"]: disagreements.append((r["name"], r["dis"], r["script"]))
         for f in r["fails"]:
